@@ -17,9 +17,10 @@ for d in sorted(glob.glob('/verif/seeded/C*')):
         'verdict': row['verdict'] if row else 'not run',
         'assertions': row['labels'] if row else [],
     }
-    r2 = json.load(open('/verif/seeded/round2_first_sight.json'))
-    if name in r2['first_sight']:
-        m['verif']['first_sight'] = r2['first_sight'][name]
+    for rf in ('round2_first_sight.json', 'round3_first_sight.json'):
+        r2 = json.load(open('/verif/seeded/' + rf))
+        if name in r2['first_sight']:
+            m['verif']['first_sight'] = r2['first_sight'][name]
     if row and row['verdict'] != 'VIOLATION':
         m['verif']['why_not_flagged'] = 'see DESIGN.md section 7 (Misses)'
     json.dump(m, open(mp, 'w'), indent=1)
